@@ -295,6 +295,8 @@ func (s *sctx) funItem() Item {
 		o, feat = codeOpts{specialDoc: 2}, "doc-underscore"
 	case s.want("fun-case-keys"):
 		o, feat = codeOpts{caseKeys: true}, "fun-case-keys"
+	case s.want("fun-function-form"):
+		o, feat = codeOpts{fnForm: true}, "fun-function-form"
 	case r.IntN(25) == 0:
 		o = codeOpts{stringBody: 1}
 	}
@@ -1427,7 +1429,7 @@ func buildDefCase(r *rand.Rand, kind, feat string) Case {
 
 var sessionFeats = []string{
 	"class", "flavor-parent", "var-long-float", "package-var", "package-fun", "var-closure", "fun-closure",
-	"var-nested-attr", "var-quote-value", "var-vector-grown", "var-not-adjustable", "fun-string-body", "doc-escape", "doc-underscore", "flavor-removed", "fun-case-keys",
+	"var-nested-attr", "var-quote-value", "var-vector-grown", "var-not-adjustable", "fun-string-body", "doc-escape", "doc-underscore", "flavor-removed", "fun-case-keys", "fun-function-form",
 }
 
 func genSessionCase(r *rand.Rand) Case {
